@@ -240,16 +240,31 @@ fn collect(state: &State, possible_cycles: &PossibleCycles) {
 
     struct DropGuard<'a> {
         state: &'a State,
+        possible_cycles: &'a PossibleCycles,
+        completed: bool,
     }
 
     impl<'a> Drop for DropGuard<'a> {
         #[inline]
         fn drop(&mut self) {
+            if !self.completed {
+                // The collection is being unwound by a panic. The objects still inside possible_cycles may have
+                // already been counted by the objects traced before the panic, but the next collection expects
+                // their tracing counter to be 0 (see trace_counting): reset it, otherwise live objects might be
+                // mistaken for garbage.
+                let mut next = self.possible_cycles.first();
+                while let Some(ptr) = next {
+                    unsafe {
+                        ptr.as_ref().counter_marker().reset_tracing_counter();
+                        next = *ptr.as_ref().get_next();
+                    }
+                }
+            }
             self.state.set_collecting(false);
         }
     }
 
-    let _drop_guard = DropGuard { state };
+    let mut drop_guard = DropGuard { state, possible_cycles, completed: false };
 
     // A collection can be started by a finalizer, a destructor or a cleaning action that is being run by a plain
     // Cc::drop, which sets finalizing/dropping but not collecting. Those flags describe the caller, not this
@@ -289,7 +304,8 @@ fn collect(state: &State, possible_cycles: &PossibleCycles) {
         __collect(state, possible_cycles);
     }
 
-    // _drop_guard is dropped here, setting state.collecting to false
+    drop_guard.completed = true;
+    // drop_guard is dropped here, setting state.collecting to false
 }
 
 fn __collect(state: &State, possible_cycles: &PossibleCycles) {
